@@ -81,7 +81,99 @@ def cases(rng, tier):
     out += _slice_cases(rng, 150 if tier == "quick" else 2000)
     out += _repeat_cases(rng, 300 if tier == "quick" else 4000)
     out += _xd_cases(rng, 150 if tier == "quick" else 2000)
+    out += _own_cases(rng, 400 if tier == "quick" else 5000)
     return out
+
+
+OWN_OPS = ["max", "min", "argmax", "sum", "prod", "mean", "any", "all", "padded", "padded_left", "cumsum", "sort", "unique", "astype", "neg", "sum0", "col_counts",
+           "colvals", "nonzero", "tolist_rows", "np.max", "np.min", "rows", "mask"]      # (an integer row ra[i] is a view of the row, as in numpy: not in the list)
+
+
+def _own_cases(rng, n):
+    """what a read-only operation hands out is a value of its own: a later write into the source leaves it as it was, and a write
+    into it leaves the source as it was -- whatever the shape of the source (rows of one cell, equally long rows, a single row, ...)"""
+    out = []
+    for _ in range(n):
+        kind = rng.choice(["ones", "rect", "single", "ragged", "ragged"])
+        if kind == "ones":
+            lens = [1] * rng.randint(1, 5)
+        elif kind == "rect":
+            lens = [rng.randint(1, 4)] * rng.randint(1, 4)
+        elif kind == "single":
+            lens = [rng.randint(1, 5)]
+        else:
+            lens = [rng.choice([0, 1, 2, 3]) for _ in range(rng.randint(1, 5))]
+            if sum(lens) == 0:
+                lens[0] = 2
+        out.append({"own": {"lens": lens, "dtype": rng.choice(["int64", "float64", "int32", "bool"]), "op": rng.choice(OWN_OPS), "write": rng.choice(["cell", "fill", "flat", "iadd"])}})
+    return out
+
+
+def _run_own(q):
+    import numpy as np, warnings
+    from npstructures import RaggedArray
+    n = sum(q["lens"])
+    base = (((np.arange(n) * 7) % 5) + 1).astype(q["dtype"])
+    ra = RaggedArray(base.copy(), list(q["lens"]))
+    o = q["op"]
+    def op():
+        with np.errstate(all="ignore"), warnings.catch_warnings():
+            warnings.simplefilter("ignore")
+            if o in ("max", "min", "argmax", "sum", "prod", "mean", "any", "all"):
+                return getattr(ra, o)(axis=-1)
+            if o in ("np.max", "np.min"):
+                return getattr(np, o[3:])(ra, axis=-1)
+            if o == "padded": return ra.as_padded_matrix()
+            if o == "padded_left": return ra.as_padded_matrix(side="left")
+            if o == "cumsum": return np.cumsum(ra.astype(np.int64), axis=-1)
+            if o == "sort": return ra.sort(axis=-1)
+            if o == "unique": return np.unique(ra, axis=-1)
+            if o == "astype": return ra.astype(ra.dtype)
+            if o == "neg": return np.logical_not(ra) if ra.dtype == bool else -ra
+            if o == "sum0": return ra.sum(axis=0)
+            if o == "col_counts": return ra.col_counts()
+            if o == "colvals": return ra.get_column_values(0)
+            if o == "nonzero": return np.concatenate([np.asarray(x) for x in ra.nonzero()])
+            if o == "tolist_rows": return np.concatenate([np.asarray(r) for r in ra]) if False else [np.array(r) for r in ra.tolist()][0]
+            if o == "row": return ra[0]
+            if o == "rows": return ra[[0, -1]] if len(q["lens"]) else ra[:0]
+            if o == "mask": return ra[ra > 1]
+    def snap(x):
+        if isinstance(x, RaggedArray):
+            return [str(x.dtype), [int(v) for v in x.lengths], np.asarray(x.ravel()).tobytes().hex()]
+        x = np.asarray(x)
+        return [str(x.dtype), list(x.shape), x.tobytes().hex()]
+    try:
+        res = op()
+    except Exception:
+        return [True, "refused"]
+    before = snap(res)
+    src_before = snap(ra)
+    # 1. a write into the source
+    one = np.array([0 if q["dtype"] != "bool" else False]).astype(q["dtype"])[0]
+    nonempty = [i for i, l in enumerate(q["lens"]) if l > 0]
+    if q["write"] == "cell":
+        ra[nonempty[0], 0] = one
+        ra[nonempty[-1], q["lens"][nonempty[-1]] - 1] = one
+    elif q["write"] == "fill":
+        ra.fill(one)
+    elif q["write"] == "flat":
+        ra.ravel()[...] = one
+    else:
+        if q["dtype"] == "bool":
+            np.logical_not(ra, out=ra)
+        else:
+            ra += 1
+    if snap(res) != before:
+        return [False, "the result of %s changed when its source was written to" % o]
+    # 2. a write into the result (when it can be written to): the source as it was at the time
+    src_now = snap(ra)
+    target = res.ravel() if isinstance(res, RaggedArray) else res
+    if isinstance(target, np.ndarray) and target.size and target.flags.writeable and (o != "row"):
+        target[...] = np.zeros(1, dtype=target.dtype)[0] if target.reshape(-1)[0] != 0 else np.ones(1, dtype=target.dtype)[0]
+        if snap(ra) != src_now:
+            return [False, "writing into the result of %s changed its source" % o]
+    return [True, None]
 
 
 XD_UFUNCS = {"add": ["int64", "uint64", "float64", "float32"], "multiply": ["int64", "uint64", "float64", "float32"],
@@ -495,7 +587,7 @@ def _run_mask(q, with_reads):
 
 
 def key(p):
-    if "mk" in p or "pr" in p or "rs" in p or "rp" in p or "xd" in p:
+    if "mk" in p or "pr" in p or "rs" in p or "rp" in p or "xd" in p or "own" in p:
         return engine.stable_hash(p)
     if "fl" in p:
         return engine.stable_hash(p)
@@ -503,7 +595,7 @@ def key(p):
 
 
 def nontrivial(p):
-    if "fl" in p or "mk" in p or "pr" in p or "rs" in p or "rp" in p or "xd" in p:
+    if "fl" in p or "mk" in p or "pr" in p or "rs" in p or "rp" in p or "xd" in p or "own" in p:
         return True
     kinds = [s["s"] for s in p["prog"]]
     return "assign" in kinds and "select" in kinds
@@ -515,8 +607,8 @@ def distribution(ps):
     mk = [p for p in ps if "mk" in p]
     pr = [p for p in ps if "pr" in p]
     rs = [p for p in ps if "rs" in p]; rp = [p for p in ps if "rp" in p]
-    ps = [p for p in ps if "fl" not in p and "mk" not in p and "pr" not in p and "rs" not in p and "rp" not in p and "xd" not in p]
-    return {"cross_array_reduction_cases": sum(1 for p in fl_all if "xd" in p), "window_then_write_cases": len(rs), "repeat_after_allocations_cases": len(rp), "repeat_ops": gens.hist(p["rp"]["op"] for p in rp),
+    ps = [p for p in ps if "fl" not in p and "mk" not in p and "pr" not in p and "rs" not in p and "rp" not in p and "xd" not in p and "own" not in p]
+    return {"result_ownership_cases": sum(1 for p in fl_all if "own" in p), "cross_array_reduction_cases": sum(1 for p in fl_all if "xd" in p), "window_then_write_cases": len(rs), "repeat_after_allocations_cases": len(rp), "repeat_ops": gens.hist(p["rp"]["op"] for p in rp),
             "print_state_cases": len(pr), "print_cells": gens.hist(sum(p["pr"]["lens"]) for p in pr),
             "mask_alias_write_cases": len(mk), "mask_write_kinds": gens.hist(p["mk"]["write"] for p in mk),
             "float_alias_write_cases": len(fl), "float_alias_kinds": gens.hist(p["fl"]["alias"] for p in fl),
@@ -540,6 +632,11 @@ def run_impl(p):
             r = _run_repeat(p["rp"])
             return {"k": "obs", "equal": {"k": "py", "v": r[0]}, "detail": {"k": "py", "v": None if r[0] else r[1:]}}
         return guarded(hr)
+    if "own" in p:
+        def ho():
+            r = _run_own(p["own"])
+            return {"k": "obs", "equal": {"k": "py", "v": r[0]}, "detail": {"k": "py", "v": r[1]}}
+        return guarded(ho)
     if "xd" in p:
         def hx():
             plain, want = _run_xd(p["xd"], False)
@@ -581,7 +678,7 @@ def run_impl(p):
 
 
 def oracle(p):
-    if "rs" in p or "rp" in p or "xd" in p:
+    if "rs" in p or "rp" in p or "xd" in p or "own" in p:
         return {"k": "obs", "equal": {"k": "py", "v": True}}
     if "pr" in p:
         return {"k": "obs", "equal": {"k": "py", "v": True}}
@@ -600,7 +697,7 @@ def _ins_prog(p):
 
 
 def lean_request(p):
-    if "fl" in p or "mk" in p or "pr" in p or "rs" in p or "rp" in p or "xd" in p:
+    if "fl" in p or "mk" in p or "pr" in p or "rs" in p or "rp" in p or "xd" in p or "own" in p:
         return None
     # the Lean model runs the history with ONE extra read statement inserted; its observation is dropped afterwards
     from props import c06
